@@ -485,21 +485,42 @@ Qed.
 Definition RInv (s : rstate) : Prop :=
   Forall GInv (r_gauges s) /\ Forall XInv (r_exts s) /\ BInv (r_bal s) /\ forall d, owed d s <= r_bal s d.
 
+(* one of the steps 2-4 of the hook: it keeps its writes (and then the step invariant applies) or it
+   is rolled back as a whole *)
+Lemma sub_step_cases {A} (r : outcome (A * bank * dpays)) xs b :
+  (exists v, r = Ok v /\ sub_step r xs b = v) \/ (is_ok r = false /\ sub_step r xs b = (xs, b, [])).
+Proof. destruct r as [v| |]; [left; exists v; auto|right; auto|right; auto]. Qed.
+
 Lemma begin_block_inv now e s s' ps :
   begin_block now e s = Ok (s', ps) -> RInv s -> forallb recv_wf (be_recv e) = true ->
   kf2_begin now e s = false -> kf3_begin now e s = false -> kf4_begin now e s = false -> RInv s'.
 Proof.
   unfold begin_block, kf2_begin, kf3_begin, kf4_begin, RInv, owed. intros E (HG & HX & HB & HO) Hw K2 K3 K4.
   destruct (run_epochs now (r_epochs s) (r_gauges s) (be_farm e) (be_recv e) (r_bal s)) as [[[[es gs] b1] p1]| |] eqn:E1; try discriminate.
-  apply orb_false_iff in K3. destruct K3 as [K3a K3b].
-  destruct (run_exts 0 now (r_exts s) (be_ext e) b1) as [[[xs1 b2] p2]| |] eqn:E2; try discriminate.
-  destruct (run_exts 1 now xs1 (be_ext e) b2) as [[[xs2 b3] p3]| |] eqn:E3; try discriminate.
-  destruct (run_lends now xs2 (be_lend e) [] 0 b3) as [[[xs3 b4] p4]| |] eqn:E4; try discriminate.
-  injection E as <- <-. cbn [r_bal r_gauges r_exts].
   pose proof (run_epochs_inv _ _ _ _ _ _ _ _ _ _ E1 HG HB Hw K2) as (A1 & A2 & A3).
-  pose proof (run_exts_inv _ _ _ _ _ _ _ _ E2 HX A2 K3a) as (B1 & B2 & B3).
-  pose proof (run_exts_inv _ _ _ _ _ _ _ _ E3 B1 B2 K3b) as (C1 & C2 & C3).
-  pose proof (run_lends_inv _ _ _ _ _ _ _ _ _ E4 C1 C2 K4) as (D1 & D2 & D3).
+  apply orb_false_iff in K3. destruct K3 as [K3a K3b].
+  (* step 2: lockers *)
+  assert (S2 : let '(xs1, b2, _) := sub_step (run_exts 0 now (r_exts s) (be_ext e) b1) (r_exts s) b1 in
+               Forall XInv xs1 /\ BInv b2 /\ (forall d, owed_x d xs1 - owed_x d (r_exts s) <= b2 d - b1 d)).
+  { destruct (sub_step_cases (run_exts 0 now (r_exts s) (be_ext e) b1) (r_exts s) b1) as [([[xs1 b2] p2] & Er & ->)|(Ef & ->)].
+    - rewrite Er in K3a. cbn [is_ok andb] in K3a. exact (run_exts_inv _ _ _ _ _ _ _ _ Er HX A2 K3a).
+    - repeat split; try assumption. intros; lia. }
+  destruct (sub_step (run_exts 0 now (r_exts s) (be_ext e) b1) (r_exts s) b1) as [[xs1 b2] p2]. destruct S2 as (B1 & B2 & B3).
+  (* step 3: vaults *)
+  assert (S3 : let '(xs2, b3, _) := sub_step (run_exts 1 now xs1 (be_ext e) b2) xs1 b2 in
+               Forall XInv xs2 /\ BInv b3 /\ (forall d, owed_x d xs2 - owed_x d xs1 <= b3 d - b2 d)).
+  { destruct (sub_step_cases (run_exts 1 now xs1 (be_ext e) b2) xs1 b2) as [([[xs2 b3] p3] & Er & ->)|(Ef & ->)].
+    - rewrite Er in K3b. cbn [is_ok andb] in K3b. exact (run_exts_inv _ _ _ _ _ _ _ _ Er B1 B2 K3b).
+    - repeat split; try assumption. intros; lia. }
+  destruct (sub_step (run_exts 1 now xs1 (be_ext e) b2) xs1 b2) as [[xs2 b3] p3]. destruct S3 as (C1 & C2 & C3).
+  (* step 4: lend programs *)
+  assert (S4 : let '(xs3, b4, _) := sub_step (run_lends now xs2 (be_lend e) [] 0 b3) xs2 b3 in
+               Forall XInv xs3 /\ BInv b4 /\ (forall d, owed_x d xs3 - owed_x d xs2 <= b4 d - b3 d)).
+  { destruct (sub_step_cases (run_lends now xs2 (be_lend e) [] 0 b3) xs2 b3) as [([[xs3 b4] p4] & Er & ->)|(Ef & ->)].
+    - rewrite Er in K4. cbn [is_ok andb] in K4. exact (run_lends_inv _ _ _ _ _ _ _ _ _ Er C1 C2 K4).
+    - repeat split; try assumption. intros; lia. }
+  destruct (sub_step (run_lends now xs2 (be_lend e) [] 0 b3) xs2 b3) as [[xs3 b4] p4]. destruct S4 as (D1 & D2 & D3).
+  injection E as <- <-. cbn [r_bal r_gauges r_exts].
   repeat split; try assumption. intros d. specialize (HO d). specialize (A3 d). specialize (B3 d). specialize (C3 d). specialize (D3 d). lia.
 Qed.
 
@@ -581,14 +602,30 @@ Proof.
 Qed.
 
 (* cumulative distributed <= deposit for every non-swap-fee gauge, EVERY history (no class excluded) *)
+(* the gauges and epochs a BeginBlocker leaves are those of TriggerAndUpdateEpochInfos alone: no
+   external program, whatever it does (error, panic, overdraw), touches them or stops the hook *)
+Lemma begin_block_gauges now e s :
+  match run_epochs now (r_epochs s) (r_gauges s) (be_farm e) (be_recv e) (r_bal s) with
+  | Ok (es, gs, _, _) => exists s' ps, begin_block now e s = Ok (s', ps) /\ r_gauges s' = gs /\ r_epochs s' = es
+  | Err c => begin_block now e s = Err c
+  | Panic => begin_block now e s = Panic
+  end.
+Proof.
+  unfold begin_block.
+  destruct (run_epochs now (r_epochs s) (r_gauges s) (be_farm e) (be_recv e) (r_bal s)) as [[[[es gs] b1] p1]| |]; try reflexivity.
+  destruct (sub_step (run_exts 0 now (r_exts s) (be_ext e) b1) (r_exts s) b1) as [[xs1 b2] p2].
+  destruct (sub_step (run_exts 1 now xs1 (be_ext e) b2) xs1 b2) as [[xs2 b3] p3].
+  destruct (sub_step (run_lends now xs2 (be_lend e) [] 0 b3) xs2 b3) as [[xs3 b4] p4].
+  eexists _, _. split; [reflexivity|]. split; reflexivity.
+Qed.
+
 Lemma begin_block_ginvr now e s s' ps : begin_block now e s = Ok (s', ps) -> Forall GInvR (r_gauges s) -> Forall GInvR (r_gauges s').
 Proof.
-  unfold begin_block. intros E HG.
-  destruct (run_epochs now (r_epochs s) (r_gauges s) (be_farm e) (be_recv e) (r_bal s)) as [[[[es gs] b1] p1]| |] eqn:E1; try discriminate.
-  destruct (run_exts 0 now (r_exts s) (be_ext e) b1) as [[[xs1 b2] p2]| |]; try discriminate.
-  destruct (run_exts 1 now xs1 (be_ext e) b2) as [[[xs2 b3] p3]| |]; try discriminate.
-  destruct (run_lends now xs2 (be_lend e) [] 0 b3) as [[[xs3 b4] p4]| |]; try discriminate.
-  injection E as <- <-. cbn [r_gauges]. eapply run_epochs_ginvr; eassumption.
+  intros E HG. pose proof (begin_block_gauges now e s) as Hb.
+  destruct (run_epochs now (r_epochs s) (r_gauges s) (be_farm e) (be_recv e) (r_bal s)) as [[[[es gs] b1] p1]| |] eqn:E1;
+    [|rewrite Hb in E; discriminate|rewrite Hb in E; discriminate].
+  destruct Hb as (s2 & ps2 & Hb & Hg & _). rewrite Hb in E. injection E as <- <-. rewrite Hg.
+  eapply run_epochs_ginvr; eassumption.
 Qed.
 
 Lemma rapply_ginvr s o : Forall GInvR (r_gauges s) -> Forall GInvR (r_gauges (rapply s o)).
